@@ -49,6 +49,8 @@ pub fn bounds(tier: Tier) -> Vec<ConvBound> {
             mk(Fam::Uni, 0, vec![rcu(1, true, true), rcu(2, true, false)], 3, 0),
             mk(Fam::Arr, 1, vec![rcu(1, true, false), rcu(2, true, false)], 3, 0),
             mk(Fam::Xml, 0, vec![rcu(1, true, false), rcu(2, true, false)], 3, 0),
+            // formatting marks between the elements (an index next to a mark must still stick to the element)
+            mk(Fam::Rtx, 0, vec![rcu(1, true, false), rcu(2, true, false)], 3, 0),
         ],
         Tier::Thorough => vec![
             mk(Fam::Txt, 1, vec![rcu(1, true, false), rcu(2, true, false)], 4, 0),
